@@ -27,6 +27,7 @@ func init() { families["notify"] = notifyFamily }
 type ntStep struct {
 	A  string `json:"a"`
 	C  string `json:"c"`
+	D  string `json:"d"` // the second writer of a RemoteRace
 	Ch string `json:"ch"`
 	V  int    `json:"v"`
 }
@@ -205,9 +206,9 @@ func (w *ntWorld) runWord(b Beh, tr *Tracer) error {
 		if err := json.Unmarshal(raw, &st); err != nil {
 			return err
 		}
-		o := J{"ev": "act", "case": b.ID, "i": i, "a": st.A, "c": st.C, "ch": st.Ch, "v": st.V, "http": -1, "status": 0, "skipped": false, "panic": false}
+		o := J{"ev": "act", "case": b.ID, "i": i, "a": st.A, "c": st.C, "d": st.D, "ch": st.Ch, "v": st.V, "http": -1, "status": 0, "skipped": false, "panic": false}
 		cs := conns[st.C]
-		needConn := st.A == "Close" || st.A == "Sub" || st.A == "Unsub" || st.A == "Remote" || st.A == "Getter" || st.A == "LocalRace" || st.A == "RemoteSub" || st.A == "RemoteUnsub"
+		needConn := st.A == "RemoteRace" || st.A == "Close" || st.A == "Sub" || st.A == "Unsub" || st.A == "Remote" || st.A == "Getter" || st.A == "LocalRace" || st.A == "RemoteSub" || st.A == "RemoteUnsub"
 		if needConn && cs == nil {
 			o["skipped"] = true
 		} else {
@@ -240,6 +241,30 @@ func (w *ntWorld) runWord(b Beh, tr *Tracer) error {
 					v = st.V == 1
 				}
 				o["http"], o["status"] = w.put(cs, J{"aid": ch.aid, "iid": ch.ch.ID, "value": v})
+			case "RemoteRace":
+				// two controllers write the same new value at the same time: one of the writes is the change
+				other := conns[st.D]
+				if other == nil {
+					o["skipped"] = true
+					break
+				}
+				ch := w.chars[st.Ch]
+				var v interface{} = st.V
+				if st.Ch != "z" {
+					v = st.V == 1
+				}
+				var wg sync.WaitGroup
+				start := make(chan struct{})
+				for _, x := range []*ntConn{cs, other} {
+					wg.Add(1)
+					go func(x *ntConn) {
+						defer wg.Done()
+						<-start
+						w.put(x, J{"aid": ch.aid, "iid": ch.ch.ID, "value": v})
+					}(x)
+				}
+				close(start)
+				wg.Wait()
 			case "Getter":
 				// the application answers this connection's read through a getter installed for the duration of the read
 				ch := w.chars[st.Ch]
